@@ -927,18 +927,34 @@ def compare_expected(ctx, sc, evs, rej, perturb=None):
     return mism
 
 
+def run_model(ctx, cfg, constants, emit=False, **kw):
+    """one TLC run of GenSiblings.tla; a JVM that disappears without an answer (this sandbox's OOM killer) is retried"""
+    from .. import tlc
+    from ..core import MachineryFailure
+
+    res = None
+    for _attempt in range(3):
+        res = tlc.run_tlc(tlc.SPECS / "GenSiblings.tla", tlc.SPECS / (cfg + ".cfg"), ctx.scratch, constants=constants, xmx="3g",
+                          workers=1 if emit else 8, timeout=3000, **kw)
+        if res.ok:
+            ctx.add_model(res, cfg + ".cfg")
+            return res
+        if res.error or res.violated:
+            break
+    raise MachineryFailure("model GenSiblings/%s did not pass: %s %s\n%s" % (cfg, res.error, res.violated, res.out[-3000:]))
+
+
 def run(ctx):
     from .. import tlc
     from ..core import MachineryFailure
 
     # ---- 1. the bounded design: I => P for the repaired mechanisms, exhaustively -----------------------------------------
     consts = "NTypes=3 MaxRuns=%s all subsets x orders x modes{fresh,lctx,gen,proc}"
-    tlc.check_model(ctx, "GenSiblings", "GenSiblings_limiter", constants=consts % 3 + " lead,trail in 0..2 limit in {none,0,1,2}", timeout=3000)
-    tlc.check_model(ctx, "GenSiblings", "GenSiblings_uniq", constants=consts % 3 + " lit 0..2 dyn 0..1 mod", timeout=3000)
-    tlc.check_model(ctx, "GenSiblings", ctx.pick("GenSiblings_depsq", "GenSiblings_deps"),
-                    constants="NTypes=%d MaxRuns=3 defsets{1,2,3} omit{F,T}" % ctx.pick(3, 4), timeout=3000)
+    run_model(ctx, "GenSiblings_limiter", consts % 3 + " lead,trail in 0..2 limit in {none,0,1,2}")
+    run_model(ctx, "GenSiblings_uniq", consts % 3 + " lit 0..2 dyn 0..1 mod")
+    run_model(ctx, ctx.pick("GenSiblings_depsq", "GenSiblings_deps"), "NTypes=%d MaxRuns=3 defsets{1,2,3} omit{F,T}" % ctx.pick(3, 4))
     if not ctx.quick:
-        tlc.check_model(ctx, "GenSiblings", "GenSiblings", constants="NTypes=3 MaxRuns=2 mixed shapes(32) limit{none,1} defsets{1,2}", timeout=3000)
+        run_model(ctx, "GenSiblings", "NTypes=3 MaxRuns=2 mixed shapes(32) limit{none,1} defsets{1,2}")
 
     # ---- 2. negative controls = predicted defects: every violating history is a stimulus for the real code --------------
     sid = 0
@@ -948,9 +964,7 @@ def run(ctx):
     ctx.cov["model_negative_controls"] = {}
     pred = {}
     for cfg, flag in neg_names.items():
-        res = tlc.run_tlc(tlc.SPECS / "GenSiblings.tla", tlc.SPECS / ("GenSiblings_%s.cfg" % cfg), ctx.scratch, workers=1, timeout=3000)
-        if res.error or res.violated or "No error has been found" not in res.out:
-            raise MachineryFailure("negative control %s did not run: %s %s\n%s" % (cfg, res.error, res.violated, res.out[-2000:]))
+        res = run_model(ctx, "GenSiblings_%s" % cfg, flag + " (negative control: prints every violating history)", emit=True)
         hs = res.json_lines()
         if not hs:
             raise MachineryFailure("negative control %s: the flawed design was not refuted by TLC" % cfg)
@@ -965,8 +979,7 @@ def run(ctx):
     n_pred = sid
 
     # ---- 3. spec -> code: every complete history of the repaired model, with the expected abstract files ----------------
-    cases = tlc.emit_cases(ctx, "GenSiblings", ctx.pick("GenSiblings_emitq", "GenSiblings_emit"), constants="MaxRuns=2 (emission, repaired model)",
-                           timeout=3000)
+    cases = run_model(ctx, ctx.pick("GenSiblings_emitq", "GenSiblings_emit"), "MaxRuns=2 (emission, repaired model)", emit=True).json_lines()
     if len(cases) < 500:
         raise MachineryFailure("too few histories emitted: %d" % len(cases))
     step = max(1, len(cases) // ctx.pick(240, 4000))
@@ -974,8 +987,7 @@ def run(ctx):
         scen[sid] = model_scenario(sid, h, LANGS[i % 4], "model")
         sid += 1
     if not ctx.quick:
-        sim = tlc.emit_cases(ctx, "GenSiblings", "GenSiblings_emitsim", name="GenSiblings_emitsim(simulate)", constants="MaxRuns=4 simulation",
-                             simulate="num=1500", depth=60, seed=ctx.seed + 1, timeout=3000)
+        sim = run_model(ctx, "GenSiblings_emitsim", "MaxRuns=4 simulation", emit=True, simulate="num=1500", depth=60, seed=ctx.seed + 1).json_lines()
         seen = set()
         for h in sim:
             k = json.dumps(h, sort_keys=True)
